@@ -3,6 +3,7 @@ import GrinVerif.Lemmas.ChainSim
 import GrinVerif.Lemmas.ChainExampleFacts
 import GrinVerif.Lemmas.ChainMoreReject
 import GrinVerif.Lemmas.ChainMoreExamples
+import GrinVerif.Lemmas.ChainInputs
 /-! # C06 — rejected or losing-fork input leaves best-chain state untouched
 (theorems on `Model/Chain.lean`; `KnownFull`, `hdrUpdate` in `Lemmas/ChainStep.lean`, `StoreInv`
 in `Lemmas/ChainValid.lean`, `CoreEq`, `obsBest` in `Lemmas/ChainBisim.lean`).
@@ -324,6 +325,16 @@ theorem state_fault_refused (p : Params) (n : Node) (b : Blk) (par : Nat) (sPar 
   · rw [h5] at h; cases h
   · exact h h6
 
+/-- **An input that claims the wrong features** (inputs in the features-and-commit form of protocol
+version 2 / JSON: plain for a coinbase output or coinbase for a plain one; the claims are compared
+with the outputs the block names — a static fact — and the mismatch is evaluated where
+`validate_utxo` compares the full output identifier): the block is refused by every node in every
+state, head, stored blocks and reported unspent set unchanged, whatever else the block contains. -/
+theorem input_features_mismatch_refused (p : Params) (n : Node) (outs : List OutDef) (b : Blk)
+    (inf : List (Nat × Bool)) (h : featMismatch outs inf = true) :
+    Refused p n (b.withInputFeatures outs inf) :=
+  refused_of_featMismatch p n outs b inf h
+
 /-- **Each header-fault class** — unknown parent header, wrong height, version, timestamp not after
 the parent's, `hdr:` tag (PoW, difficulty, `prev_root`) — on any node reached by a history (store
 invariant), for a block that is not already known: refused, and the node is left unchanged
@@ -498,5 +509,13 @@ example : obsBest Ex2.P
     simp only [AllRefused]
     exact ⟨⟨"Orphan", by decide⟩, ⟨"AlreadySpent", by decide⟩, trivial⟩)
 
+-- `input_features_mismatch_refused`: b2 (spends the plain output 100) with its input claiming coinbase
+example : featMismatch Ex2.outs [(100, true)] = true := by decide
+example : Refused Ex2.P NB (Ex2.B2.withInputFeatures Ex2.outs [(100, true)]) :=
+  input_features_mismatch_refused Ex2.P NB Ex2.outs Ex2.B2 [(100, true)] (by decide)
+-- … while the same block with the right claim is b2 itself, which is accepted on b1
+example : Ex2.B2.withInputFeatures Ex2.outs [(100, false)] = Ex2.B2 := by
+  simp [Blk.withInputFeatures, featMismatch, Ex2.outs]
+example : (deliverBlock Ex2.P NB Ex2.B2).2 = .okHead := by decide
 end ClassExamples
 end GV.Props.C06
